@@ -425,6 +425,13 @@ def clone_program(pid, kind, name, variants, generics, copy, note, form):
     traits = ["Clone", "Copy"] if copy else ["Clone"]
     if form % 3 == 0:
         traits.reverse()
+    # other traits educed next to Clone must not change it (every fourth program; Debug runs before Clone)
+    if (form // 2) % 3 == 1:
+        traits = ["Debug"] + traits
+        note += " +Debug"
+    elif (form // 2) % 3 == 2 and form % 5 == 0:
+        traits = traits + ["PartialEq"]
+        note += " +PartialEq"
     P = Program(pid, kind, name, variants, traits, generics=sorted(generics),
                 inst={g: "crate::m::Ctr<%s>" % g[1:] for g in generics}, focus={"Clone"}, note=note, clone={"copy": copy})
     if copy:
@@ -520,6 +527,8 @@ DEF_LITS = [("u8",            "7",           "7u8",                         True
             ("&'static str",  '"hi"',        '"hi"',                        False),
             ("String",        '"hi"',        'String::from("hi")',          False),
             ("u16",           "0x1F",        "31u16",                       True),
+            ("&'static [u8; 2]", 'b"ab"',    'b"ab"',                       False),   # byte string into a byte-array reference: no Into
+            ("u32",           "1_000",       "1000u32",                     True),
             ("crate::m::Off", "-9",          "-9i64",                       True),    # type alias: not spelled as a primitive -> Into, sign must survive
             ("crate::m::Off", "9",           "9i64",                        True),
             ("crate::m::Flt", "-2.5",        "-2.5f64",                     False),
@@ -572,6 +581,20 @@ def _c08(tier, seed):
             new = form % 3 == 0
             out.append(Program(c.pid(), "struct", "S", [Variant(None, shape, fields)], def_traits(new, form), focus={"Default"},
                                note="struct %s lit=%s spelling=%d at=%d/%d new=%s" % (shape, DEF_LITS[k][1], sp, at, n, new), default={"new": new}))
+    # same-typed fields, some with an expression and some defaulted, in every order (tuple positions must be kept)
+    for shape in ("tuple", "named"):
+        for pattern in ("de", "ed", "dde", "ded", "edd", "dee", "eded"):
+            form += 1
+            fs = []
+            for i, ch in enumerate(pattern):
+                if ch == "e":
+                    v = 7 + i
+                    sp = ["Default = %d", "Default(expression = %d)", "Default(expr(%d))"][(form + i) % 3] % v
+                    fs.append(Field(NAMES[i] if shape == "named" else None, "u32", attrs=[sp], default={"src": str(v), "expected": "%du32" % v, "verus": True}))
+                else:
+                    fs.append(Field(NAMES[i] if shape == "named" else None, "u32", default={"src": None, "expected": "0u32", "verus": True}))
+            out.append(Program(c.pid(), "struct", "S", [Variant(None, shape, fs)], def_traits(form % 2 == 0, form), focus={"Default"},
+                               note="struct %s same-typed fields expression/default pattern %s" % (shape, pattern), default={"new": form % 2 == 0}))
     # two/three literal fields next to each other (neighbour's expression must not leak)
     for k in range(0, nl, 2):
         form += 1
@@ -1346,6 +1369,12 @@ def c14(tier, seed):
         for j, r2 in enumerate(val_forms("rank", "-4")):
             fs = [Field(None, "T0", attrs=["Ord(%s)" % r1], ord={"rank": 3}), Field(None, "T0", ord={}), Field(None, "T1", attrs=["Ord(%s)" % r2], ord={"rank": -4})]
             out.append(ord_program(c.pid(), "struct", "S", [Variant(None, "tuple", fs)], "both", ["T0", "T1"], i + j, "C14 rank forms `%s` `%s`" % (r1, r2), prop="C14"))
+    # ---- integer literal forms of rank: hexadecimal, underscores, octal, binary, typed suffix
+    for j, (r1, v1, r2, v2) in enumerate([("0x10", 16, "1_0", 10), ("0o7", 7, "0b11", 3), ("5isize", 5, "-0x2", -2), ('"0"', 0, "-1_0", -10)]):
+        for md, car in (("both", "Ord"), ("po", "PartialOrd")):
+            fs = [Field("a", "T0", attrs=["%s(rank = %s)" % (car, r1)], ord={"rank": v1}), Field("b", "T0", attrs=["%s(rank(%s))" % (car, r2)], ord={"rank": v2}),
+                  Field("c", "T1", ord={})]
+            out.append(ord_program(c.pid(), "struct", "S", [Variant(None, "named", fs)], md, ["T0", "T1"], j, "C14 rank literal forms `%s` `%s` %s" % (r1, r2, car), prop="C14"))
     # ---- explicit "not ignored" spellings: the field must still be compared / hashed / shown
     for j, neg in enumerate(["%s(ignore = false)", "%s(ignore(false))", "%s = true"]):
         fs = [Field("a", "T0", attrs=[neg % "PartialEq"], eq={}), Field("b", "T1", attrs=["PartialEq(ignore)"], eq={"ignore": True}), Field("c", "T0", eq={})]
@@ -1496,6 +1525,9 @@ def c15(tier, seed):
                 traits = ["PartialEq"]
             rnd.shuffle(traits)
         has = lambda t: any(x.split("(")[0] == t for x in traits)
+        with_copy = has("Clone") and pi % 2 == 1
+        if with_copy:
+            traits.insert(traits.index("Clone") + (pi % 2), "Copy")
         md = "both" if has("Ord") else "po"
         nv = 1 if kind == "struct" else rnd.choice((2, 3))
         variants = []
@@ -1532,7 +1564,7 @@ def c15(tier, seed):
                     sp = spell_field("Hash", sem["hash"], rnd.randrange(8))
                     if sp: attrs.append(sp)
                 if has("Clone"):
-                    a = "m" if (ty == "u8" and rnd.random() < 0.3) else "n"
+                    a = "m" if (ty == "u8" and rnd.random() < 0.3 and not (with_copy and kind == "struct")) else "n"
                     sem["clone"] = {"method": CLONE_METHODS[i % 2] if a == "m" else None}
                     if a == "m": attrs.append("Clone(%s)" % spell_param("method", sem["clone"]["method"], rnd.randrange(4)))
                 if has("Debug"):
@@ -1573,7 +1605,7 @@ def c15(tier, seed):
             variants.append(Variant(None if kind == "struct" else "V%d" % vi, shape, fs, attrs=vattrs, **vsem))
         focus = {t.split("(")[0] for t in traits} - {"Eq"}
         P = Program(c.pid(), kind, "S" if kind == "struct" else "E", variants, traits, focus=focus,
-                    note="C15 %s traits=%s" % (kind, traits), ord={"mode": md}, clone={"copy": False}, default={"new": False},
+                    note="C15 %s traits=%s" % (kind, traits), ord={"mode": md}, clone={"copy": with_copy}, default={"new": False},
                     into={"targets": ["u16"]} if has("Into") else {}, debug={"name": "default", "named_field": None})
         P.tags["prop"] = "C15"
         if pi % 5 == 1 and len(traits) > 1:
@@ -1856,6 +1888,25 @@ def wide(prop):
             out.append(Program(pid(), "enum", "E", variants, [dbg_type_meta(tn, None, 0) or "Debug"], generics=generics, inst={g: "u8" for g in generics},
                                focus={"Debug"}, note="wide enum 6 variants name=%s" % tn, debug={"name": tn, "named_field": None}))
     if prop == "C09":
+        # PhantomData (and other non-target) fields declared before the designated field: positions are declaration positions
+        PH = "core::marker::PhantomData<u16>"
+        for shape in ("tuple", "named"):
+            for lay, dm, dmm in (([PH, "u8", "u8"], 2, 2), ([PH, "u8", "u8"], 1, 2), (["u8", PH, "u8", "u8"], 3, 2), ([PH, PH, "u8", "u8", "u8"], 3, 4)):
+                fs = []
+                for i, t in enumerate(lay):
+                    attrs = (["Deref"] if i == dm else []) + (["DerefMut"] if i == dmm else [])
+                    fs.append(Field(LONG[i] if shape == "named" else None, t, attrs=attrs, deref={"mark": i == dm}, deref_mut={"mark": i == dmm}))
+                P = Program(pid(), "struct", "S", [Variant(None, shape, fs)], ["Deref", "DerefMut"], focus={"Deref", "DerefMut"},
+                            note="PhantomData before the designated field: struct %s %s deref@%d deref_mut@%d" % (shape, lay, dm, dmm))
+                P.tags["no_verus"] = "PhantomData fields: Kani on the concrete layout"
+                out.append(P)
+        vs = []
+        for vi, (lay, dm) in enumerate((([PH, "u8", "u8"], 2), (["u8", "u8"], 0), ([PH, PH, "u8", "u8"], 2))):
+            fs = [Field(None, t, attrs=(["Deref", "DerefMut"] if i == dm else []), deref={"mark": i == dm}, deref_mut={"mark": i == dm}) for i, t in enumerate(lay)]
+            vs.append(Variant("V%d" % vi, "tuple", fs))
+        P = Program(pid(), "enum", "E", vs, ["Deref", "DerefMut"], focus={"Deref", "DerefMut"}, note="PhantomData before the designated field: enum tuple variants")
+        P.tags["no_verus"] = "PhantomData fields: Kani on the concrete layout"
+        out.append(P)
         for n in (4, 5):
             for shape in ("named", "tuple"):
                 for dm, dmm in ((n - 1, 0), (0, n - 1), (n - 2, n - 1), (n - 1, n - 1)):
@@ -1863,6 +1914,17 @@ def wide(prop):
                     out.append(Program(pid(), "struct", "S", [Variant(None, shape, fs)], ["Deref", "DerefMut"], generics=["T0"], inst={"T0": "u8"},
                                        focus={"Deref", "DerefMut"}, note="wide struct %s n=%d deref@%d deref_mut@%d" % (shape, n, dm, dmm)))
     if prop == "C10":
+        # same-type fallback (no markers) with the target-typed field at a different index in each variant
+        for kinds3 in (("tuple", "tuple"), ("named", "named", "tuple"), ("tuple", "named", "tuple")):
+            for lays in ([["u8", "u32"], ["u32", "u8"]], [["u8", "u16", "u32"], ["u32", "u8", "u16"], ["u16", "u32", "u8"]], [["u32", "u8"], ["u8", "u8", "u32"], ["u8", "u32", "u16"]]):
+                if len(lays) != len(kinds3):
+                    continue
+                vs = [Variant("V%d" % vi, kd, [Field(LONG[i] if kd == "named" else None, t, into={"marks": {}}) for i, t in enumerate(lay)]) for vi, (kd, lay) in enumerate(zip(kinds3, lays))]
+                out.append(into_program(pid(), "enum", vs, ["u32"], "same-type fallback at different indexes %s" % lays, 0))
+        vs = [Variant("V0", "tuple", [Field(None, "u8", attrs=["Into(u32)"], into={"marks": {"u32": None}}), Field(None, "u32", into={"marks": {}}), Field(None, "u32", into={"marks": {}})]),
+              Variant("V1", "tuple", [Field(None, "u8", into={"marks": {}}), Field(None, "u32", into={"marks": {}})]),
+              Variant("V2", "named", [Field("a", "u32", into={"marks": {}}), Field("b", "u8", into={"marks": {}}), Field("c", "u16", into={"marks": {}})])]
+        out.append(into_program(pid(), "enum", vs, ["u32"], "marker variant followed by two same-type-fallback variants", 0))
         for n in (4, 5):
             for shape in ("named", "tuple"):
                 for at in (n - 1, n - 2, 0):
@@ -1921,11 +1983,18 @@ def own_placements(prop, programs, n=3):
     ps = [p for p in programs if p.canary_of is None and p.kind != "union" and any(f.attrs for v in p.variants for f in v.fields)]
     out = []
     step = max(1, len(ps) // n)
-    for k, P in enumerate(ps[2::step][:n]):
-        for Q in placements(P, 900 + k):
+    k = 0
+    for P in ps[2::step] + ps[3::step]:
+        qs = placements(P, 900 + k)
+        if not qs:
+            continue
+        for Q in qs:
             Q.tags["prop"] = prop
             Q.note = Q.note.replace("C14 placement", "placement")
             out.append(Q)
+        k += 1
+        if k >= n:
+            break
     return out
 
 
